@@ -21,6 +21,9 @@ Oracle clauses (predicates over two consecutive decoded results):
                   -> every partition a survivor owned it still owns
   no_old_to_old   add, all old and new members subscribed to the same topic set
                   -> no partition owned by an old member is now owned by a different old member
+  keeps_what_need_not_move  return under generation mode "positive", same topic set for everybody, nobody who stayed
+                  owns more than one partition (already balanced with the returning members empty)
+                  -> everybody who stayed keeps exactly what it had
   exact_cover, sticky_kip54   C14's validity clauses, on every round
 """
 from vlib.core import Outcome
@@ -194,15 +197,19 @@ def run_chain(gen, layout, members, steps, memo_key=None):
                     out.fail("survivors_keep", "", dict(ctx, survivor=m, lost=lost), **params)
                     return out
         elif kind == "return" and ident_both and gen == "positive":
-            # members coming back with older-generation claims lose every conflict against the current owners, so for
-            # the members that stayed this is a plain join: none of their partitions moves to another one of them
-            stayed = {m for m, _ in prev_members}
-            now = {tp: m for m, v in result.items() for tp in v}
-            for m, _ in prev_members:
-                for tp in prev_result[m]:
-                    o = now.get(tp)
-                    if o is not None and o != m and o in stayed:
-                        out.fail("no_old_to_old", "return", dict(ctx, partition=tp, was=m, now=o), **params)
+            # Members coming back with older-generation claims lose every conflict against the current owners ("higher
+            # generations overwrite lower generations"), so they start the round empty.  When that starting point is
+            # already balanced (nobody who stayed owns more than one partition) the assignor has nothing to move and
+            # leaves its reassignment loop at once: everybody who stayed keeps exactly what it had.
+            # (Nothing stronger holds: with more partitions the previous-owner preference hands partitions back to the
+            # returning members in partition order and may then refill a drained member from another one that stayed,
+            # exactly as the Java assignor does - see DESIGN.md 8.4.)
+            if max(len(prev_result[m]) for m, _ in prev_members) <= 1:
+                out.label("round:return:nothing_had_to_move")
+                for m, _ in prev_members:
+                    if sorted(result[m]) != sorted(prev_result[m]):
+                        out.fail("keeps_what_need_not_move", "return",
+                                 dict(ctx, member=m, had=sorted(prev_result[m]), has=sorted(result[m])), **params)
                         return out
         elif kind == "add" and ident_both:
             old = {m for m, _ in prev_members}
